@@ -90,8 +90,12 @@ Proof. vm_compute. repeat split; reflexivity. Qed.
 Lemma cell_value_pair_cors cs ndim m iv jv p1 p2 :
   cell_value m iv jv (pair_cors cs ndim m p1 p2) = model_eval cs ndim m iv jv p1 p2.
 Proof.
-  unfold cell_value, pair_cors, model_eval. f_equal. f_equal. rewrite map_map.
-  apply map_ext. intros [c|]; reflexivity.
+  unfold cell_value, pair_cors, model_eval. rewrite map_map.
+  assert (E : map (fun x => match match x with Some c => Some (c, cor_from_h2 c ndim m (h2_of c p1 p2)) | None => None end with
+                            | Some (c, v) => apply_sill c m iv jv v | None => None end) (active_covs cs m) =
+              map (fun oc => match oc with Some c => cova_eval c ndim m iv jv p1 p2 | None => None end) (active_covs cs m)).
+  { apply map_ext. intros [c|]; reflexivity. }
+  rewrite E. reflexivity.
 Qed.
 Lemma cov_matrix_eq cs ndim m nvar pts : cov_matrix cs ndim m nvar pts = cov_matrix_spec cs ndim m nvar pts.
 Proof.
